@@ -16,7 +16,7 @@ struct PairsRun {
     PairsRun(RunEnv& e, const Plan& p) : env(e), w(e), R(*e.rep), view(e.view), plan(p) {
         for (size_t i = 0; i < NP; i++) { g1.emplace_back(R.sz(JV_SZ_G1A)); g2.emplace_back(R.sz(JV_SZ_G2A)); prep.emplace_back(R.sz(JV_SZ_G2P), 0xEE); prep_src.emplace_back(R.sz(JV_SZ_G2A)); prep_set.push_back(false);
             R.jv_const_get(JV_EK_G1A, i % 2, g1[i]); R.jv_const_get(JV_EK_G2A, (i + 1) % 2, g2[i]); }
-        arec.alloc(NR * R.jv_pair_size(view, 0), 0xEE); prec.alloc(NR * R.jv_pair_size(view, 1), 0xEE);   // exact-size arrays of the record type the caller of this view declares
+        arec.alloc(NR * R.jv_pair_size(view, 0), 0xEE); prec.alloc(NR * R.jv_pair_size(view, 1), 0xEE); R.jv_pair_init(view, arec, NR, 0); R.jv_pair_init(view, prec, NR, 1);   // exact-size arrays of the record type the caller of this view declares
         for (size_t i = 0; i < NR; i++) a_g1[i] = a_g2[i] = p_g1[i] = p_pr[i] = -1;
     }
     std::string gc(const GTv& v) { return w.ct(v); }
